@@ -27,7 +27,7 @@ var Keys = []string{"a", "b", "c", "", "é", "k k"}
 // of nesting.
 var uTexts = []string{
 	`null`, `true`, `false`, `0`, `1`, `-1`, `1.5`, `1e3`,
-	`""`, `"a"`, `"b"`, `"0"`, `"false"`, `"é"`,
+	`""`, `"a"`, `"b"`, `"0"`, `"false"`, `"é"`, `"[1,2]"`, `"{\"a\":1}"`,
 	`[]`, `[0]`, `[null]`, `[[]]`, `[1,"a"]`, `["a","b"]`,
 	`{}`, `{"a":null}`, `{"a":1}`, `{"a":{"b":[1,2]}}`,
 }
@@ -117,7 +117,7 @@ func (g *Rand) Doc() interface{} {
 // holds each of the six JSON types at least once, at depth 0–2.
 func CoreDocs() []interface{} {
 	texts := []string{
-		`null`, `true`, `0`, `"a"`, `[]`, `{}`,
+		`null`, `true`, `0`, `"a"`, `[]`, `{}`, `"[1,2,3]"`, `"{\"a\":{\"b\":1}}"`,
 		`[1,2,3]`, `[[1,2],[3]]`, `["a",null,{"a":1}]`, `[{"a":1},{"a":2},{"b":3}]`,
 		`{"a":null}`, `{"a":true}`, `{"a":1}`, `{"a":"s"}`, `{"a":[1,2,3]}`, `{"a":{"b":1}}`,
 		`{"b":null}`, `{"b":false}`, `{"b":-1.5}`, `{"b":""}`, `{"b":[[1],[2,3]]}`, `{"b":{"a":{"c":[0]}}}`,
@@ -138,7 +138,7 @@ func CoreDocs() []interface{} {
 // ProjDocs is the projection universe of C02.
 func ProjDocs() []interface{} {
 	texts := []string{
-		`null`, `1`, `"a"`, `[]`, `{}`,
+		`null`, `1`, `"a"`, `[]`, `{}`, `"[1, null, 2]"`, `"{\"a\":[1,2]}"`, `{"a":"[{\"a\":1},[2]]"}`,
 		`[null,null]`, `[1,"a",null,[],{}]`, `[{"a":1},{"a":null},{"b":2},{"a":0}]`,
 		`[{"a":{"b":1}},{"a":{"b":null}},{"a":{}},{}]`,
 		`[[1,2],[3],[]]`, `[[1,[2]],[[3]],4,[null]]`, `[[[1]],[[2,3]],[[]]]`,
